@@ -10,9 +10,10 @@ from obl_index import Obligation, check_posts, model_values
 from models import none, some, sym_option
 
 
-def wal_manager(st, n, nxt, writer=None):
-    return VStruct("WalManager", [VInt(n, "u64"), VInt(nxt, "u64"), VStruct("SegmentStorage", [VOpaque("paths")]),
-                                  writer if writer is not None else none()])
+def wal_manager(ex, st, n, nxt, writer=None):
+    from structs import mk
+    return mk(ex, st, "WalManager", num_ops_per_wal=VInt(n, "u64"), next_op_version=VInt(nxt, "u64"),
+              storage=VStruct("SegmentStorage", [VOpaque("paths")]), active_writer=writer if writer is not None else none())
 
 
 def sym_u64(st, name, lo=0):
@@ -30,7 +31,7 @@ def call(ex, st, suffix, args, contains="wal::manager"):
 def ob_placement(ex):
     st = State()
     n, v, nxt = sym_u64(st, "N", 1), sym_u64(st, "v", 1), sym_u64(st, "next", 1)
-    wm = VRef(st.alloc(wal_manager(st, n, nxt)))
+    wm = VRef(st.alloc(wal_manager(ex, st, n, nxt)))
     finals = call(ex, st, "::segment_id_for_op_version", [wm, VInt(v, "u64")])
 
     def posts(f):
@@ -45,7 +46,7 @@ def ob_zero_version_panics(ex):
     """segment_id_for_op_version(0) is a programming error (assert_ne!) — check it IS rejected"""
     st = State()
     n, nxt = sym_u64(st, "N", 1), sym_u64(st, "next", 1)
-    wm = VRef(st.alloc(wal_manager(st, n, nxt)))
+    wm = VRef(st.alloc(wal_manager(ex, st, n, nxt)))
     finals = call(ex, st, "::segment_id_for_op_version", [wm, VInt(0, "u64")])
     t0 = time.time()
     ok = all(f.status == "panic" for f in finals) and finals
@@ -58,7 +59,7 @@ def two_calls(ex, name, rel_pre, rel_post, tags):
     n, nxt = sym_u64(st, "N", 1), sym_u64(st, "next", 1)
     a, b = sym_u64(st, "v1", 1), sym_u64(st, "v2", 1)
     st.pc.append(rel_pre(a, b))
-    wm = VRef(st.alloc(wal_manager(st, n, nxt)))
+    wm = VRef(st.alloc(wal_manager(ex, st, n, nxt)))
     finals1 = call(ex, st, "::segment_id_for_op_version", [wm, VInt(a, "u64")])
     finals = []
     for f in finals1:
@@ -90,11 +91,12 @@ def ob_prune_safe(ex):
 def ob_allocate(ex):
     st = State()
     n, nxt = sym_u64(st, "N", 1), sym_u64(st, "next", 1)
-    wm = VRef(st.alloc(wal_manager(st, n, nxt)))
+    wm = VRef(st.alloc(wal_manager(ex, st, n, nxt)))
     finals = call(ex, st, "::allocate_next_op_version", [wm])
 
     def posts(f):
-        new_next = f.load(wm).fields[1].t
+        from structs import fget
+        new_next = fget(ex, f.load(wm), "WalManager", "next_op_version").t
         r = f.retval
         rt = r.t if isinstance(r, VInt) else r.fields[0].t
         return {"C20 allocate returns the current next version": rt == nxt,
@@ -113,7 +115,7 @@ def ob_checkpoint_target(ex):
     st.pc.append(z3.And(reason >= 0, reason <= 3))
     rv = VEnum("CheckpointReason", reason, {0: [], 1: [], 2: [], 3: []})
     lastv = sym_option(last != 0, VInt(last, "u64"))
-    wm = VRef(st.alloc(wal_manager(st, n, nxt)))
+    wm = VRef(st.alloc(wal_manager(ex, st, n, nxt)))
     finals = call(ex, st, "::compute_checkpoint_target", [wm, rv, lastv])
     INITIAL, AFTER, ROLL, EXPL = 0, 1, 2, 3
 
@@ -136,7 +138,7 @@ def ob_checkpoint_target(ex):
 def ob_prev_segment(ex):
     st = State()
     n, nxt = sym_u64(st, "N", 1), sym_u64(st, "next", 1)
-    wm = VRef(st.alloc(wal_manager(st, n, nxt)))
+    wm = VRef(st.alloc(wal_manager(ex, st, n, nxt)))
     finals = call(ex, st, "::get_segment_id_for_previous_op", [wm])
 
     def posts(f):
